@@ -36,6 +36,7 @@ class Knobs:
     fields: float = 0.2         # @ivar fields in class docstrings
     max_modules: int = 6
     allow_relative: bool = True
+    single_reexporter: bool = False   # an object is re-exported (listed in __all__ by an importer) at most once
 
 
 NAMES = ["a", "b", "c", "f", "g", "h", "x", "y", "K", "L", "Base", "Mix", "_p", "_Q"]
@@ -51,6 +52,7 @@ class Gen:
         self.units: List[Unit] = []
         self.defs: Dict[str, List[str]] = {}   # module qname -> top-level class names defined
         self.funcs: Dict[str, List[str]] = {}
+        self.reexported: set = set()
 
     # ------------------------------------------------------------ layout
     def layout(self) -> List[tuple]:
@@ -122,6 +124,7 @@ class Gen:
         lines: List[str] = []
         imported: List[str] = []      # local names bound by imports that may be used as bases
         reexports: List[str] = []
+        origins: Dict[str, List[tuple]] = {}
         if rng.random() < 0.3:
             lines.append('"""module %s"""' % q)
         others = [u for u in all_units if u[0] != q]
@@ -139,6 +142,7 @@ class Gen:
                 asn = n if form == "from" else n + "_r"
                 lines.append("from %s import %s%s" % (tq, n, "" if asn == n else " as " + asn))
                 imported.append(asn)
+                origins.setdefault(asn, []).append((tq, n))
                 if rng.random() < self.k.reexport:
                     reexports.append(asn)
             elif form == "import":
@@ -155,6 +159,7 @@ class Gen:
                 for n in self.defs.get(tq, []):
                     if not n.startswith("_"):
                         imported.append(n)
+                        origins.setdefault(n, []).append((tq, n))
                         if rng.random() < self.k.reexport / 2:
                             reexports.append(n)
             elif form == "rel" and self.k.allow_relative:
@@ -166,10 +171,12 @@ class Gen:
                         n = rng.choice(tdefs)
                         lines.append("from .%s import %s" % (sub, n))
                         imported.append(n)
+                        origins.setdefault(n, []).append((tq, n))
                         if rng.random() < self.k.reexport:
                             reexports.append(n)
                     else:
                         lines.append("from . import %s" % sub)
+                        origins.setdefault(sub, []).append((tq, ""))
                         if rng.random() < self.k.reexport / 3:
                             reexports.append(sub)
         # definitions
@@ -215,6 +222,15 @@ class Gen:
                 lines += ["try:", "    def %s(): pass" % name, "except ImportError:", "    def %s(): return 0" % name]
                 used.append(name)
                 myfuncs.append(name)
+        if self.k.single_reexporter:
+            # a local name listed in __all__ re-exports EVERY object an import bound to it here
+            keep = []
+            for asn in dict.fromkeys(reexports):
+                os_ = origins.get(asn, [])
+                if all(o not in self.reexported for o in os_):
+                    self.reexported.update(os_)
+                    keep.append(asn)
+            reexports = keep
         if reexports or rng.random() < 0.1:
             extra = [n for n in mydefs if rng.random() < 0.5]
             lines.append("__all__ = %r" % (sorted(set(reexports)) + extra))
@@ -222,12 +238,20 @@ class Gen:
         self.funcs[q] = list(dict.fromkeys(myfuncs))
         return "\n".join(lines) + "\n"
 
+    def may_reexport(self, tq: str, n: str) -> bool:
+        if not self.k.single_reexporter:
+            return True
+        if (tq, n) in self.reexported:
+            return False
+        self.reexported.add((tq, n))
+        return True
+
     def project(self) -> List[Unit]:
         lay = self.layout()
         # two passes so that imports can refer to definitions of any module (incl. later ones -> cycles)
         for q, ispkg, parent in lay:
             self.module_body(q, ispkg, parent, lay)
-        rs = self.rng.getstate()
+        self.reexported = set()
         units = []
         for q, ispkg, parent in lay:
             units.append(Unit(q, ispkg, self.module_body(q, ispkg, parent, lay), parent))
